@@ -253,6 +253,14 @@ def main():
                                len(known_hits), wall))
     for k, v in sorted(per_family.items()):
         print('  family %-28s %7d cases %7d non-trivial' % (k, v['evaluations'], len(v['nontrivial'])))
+    if ns.cases is None and ns.family is None and not violation_lines and not harness_errors:
+        # vacuity guard: a generator that stopped producing non-trivial cases, or a family that rejects almost
+        # everything, is a harness problem, not a pass
+        for k, v in sorted(per_family.items()):
+            rej = sum(n for key, n in rejected.items() if key.startswith(k + '/'))
+            if v['evaluations'] > 0 and (len(v['nontrivial']) == 0 or rej > 0.5 * v['evaluations']):
+                harness_errors.append('family %s is vacuous: %d cases, %d non-trivial, %d rejected' %
+                                      (k, v['evaluations'], len(v['nontrivial']), rej))
     if harness_errors:
         seen_err = set()
         for e in harness_errors:
